@@ -331,7 +331,7 @@ def check(run: lib.Run, audit: dict) -> int:
     violations: list = []
     check_detect(run)
     check_paths_and_tools(run, audit)
-    check_defaults(run, audit, violations)
+    check_defaults(run, audit, violations, scale=run.boost)
     if run.disagreements and not run.spec_failures and not violations:
         check_defaults(run, audit, violations, scale=4)
     if run.spec_failures:
